@@ -413,6 +413,9 @@ class _ScopeContext:
                 while (sent := (yield f)) is not None:
                     subrecurse = sent
 
+                if not (a := f.a):  # has been deleted by the player (if replaced then this FST node will still exist but the .a will have changed)
+                    continue
+
                 if subrecurse is True:  # user did send(True) so walk unconditionally
                     yield from f.walk(all, self_=False, back=back)  # if the user did send(True) (subrecurse=True) then we want to recurse uncondintionally (scope=False), otherwise subrecurse=1 and continue walking with scope=True
 
